@@ -159,3 +159,27 @@ def _ch_named(c):
     c.ensures("implies(True, self._children.n >= 0)", "the-level-is-what-the-routine-returned-however-many-entries-it-has")
     c.ensures("result is self._children", "and-it-is-remembered")
     c.modifies("self._children")
+
+
+# ================================================================================================== C10: what `ls` of a directory prints
+# Traversable.get_info: one row per child of the (realised) level, in order, showing the child's PRINTED name - its safe name whenever one
+# was assigned, the empty string included (a name made only of characters the sanitiser removes), the stored name only when none was
+# assigned - and its type.  parse_path compares path tokens with the same `safe_name`, so what is printed is what resolves.
+def _mk_get_info(n):
+    kids = [("obj", "smpl_extract.base:Element", {"_safe_name": ("opt", "str"), "name": "str", "type_name": "str"}) for _ in range(n)]
+
+    @contract(S + f"Traversable.get_info[children={n}]", source_key=S + "Traversable.get_info", props=["C10", "C20"], proof_only=True)
+    def _gi(c):
+        c.self_obj(("self", "smpl_extract.structural:Traversable", {"_children": ("clist", kids), "_routines": ("cdict", {}), "_f_realize_children": ("obj", "MustNotBeCalled", {})}))
+        c.use = {S + "Traversable.children": "inline", "smpl_extract.base:Element.safe_name": "inline"}
+        c.ensures(f"len(result.rows) == {n}", "one-row-per-child")
+        for i in range(n):
+            c.ensures(f"len(result.rows) == {n} and result.rows[{i}][0] == ite(is_none(self._children[{i}]._safe_name), self._children[{i}].name, opt_val(self._children[{i}]._safe_name))",
+                      f"row-{i}-shows-the-printed-name-of-child-{i}")
+            c.ensures(f"len(result.rows) == {n} and result.rows[{i}][1] == self._children[{i}].type_name", f"row-{i}-shows-the-type-of-child-{i}")
+        c.modifies()
+    return _gi
+
+
+for _n in (0, 1, 2, 3):
+    _mk_get_info(_n)
